@@ -167,7 +167,9 @@ impl HBox {
             list,
             ..Default::default()
         };
-        let mut total_glue = common::Glue::default();
+        // Total stretch and shrink for each order of infinity (TeX.2021.646).
+        let mut total_stretch = [common::Scaled::ZERO; 4];
+        let mut total_shrink = [common::Scaled::ZERO; 4];
         let mut natural_width = common::Scaled::ZERO;
         for elem in &hbox.list {
             // TeX.2021.658
@@ -218,35 +220,8 @@ impl HBox {
                 }
                 H::Glue(glue) => {
                     // TeX.2021.656
-                    use std::cmp::Ordering::*;
-                    match total_glue.shrink_order.cmp(&glue.value.shrink_order) {
-                        Less => {
-                            total_glue.shrink = glue.value.shrink;
-                            total_glue.shrink_order = glue.value.shrink_order;
-                        }
-                        Equal => {
-                            total_glue.shrink += glue.value.shrink;
-                        }
-                        Greater => {
-                            // Do nothing.
-                            // This glue has smaller order than some other glue in the box, so will
-                            // not be used for shrinking.
-                        }
-                    }
-                    match total_glue.stretch_order.cmp(&glue.value.stretch_order) {
-                        Less => {
-                            total_glue.stretch = glue.value.stretch;
-                            total_glue.stretch_order = glue.value.stretch_order;
-                        }
-                        Equal => {
-                            total_glue.stretch += glue.value.stretch;
-                        }
-                        Greater => {
-                            // Do nothing.
-                            // This glue has smaller order than some other glue in the box, so will
-                            // not be used for stretching.
-                        }
-                    }
+                    total_stretch[glue.value.stretch_order as usize] += glue.value.stretch;
+                    total_shrink[glue.value.shrink_order as usize] += glue.value.shrink;
                     // TODO: implement leader support.
                     [glue.value.width, common::Scaled::ZERO, common::Scaled::ZERO]
                 }
@@ -271,6 +246,24 @@ impl HBox {
             PackWidth::Additional(additional) => natural_width + additional,
         };
         let excess = hbox.width - natural_width;
+        // TeX.2021.659 and TeX.2021.665: the glue order is the highest order
+        // of infinity whose total is non-zero.
+        let dominant = |totals: &[common::Scaled; 4]| -> (common::Scaled, GlueOrder) {
+            let order = [GlueOrder::Filll, GlueOrder::Fill, GlueOrder::Fil]
+                .into_iter()
+                .find(|o| totals[*o as usize] != common::Scaled::ZERO)
+                .unwrap_or(GlueOrder::Normal);
+            (totals[order as usize], order)
+        };
+        let (stretch, stretch_order) = dominant(&total_stretch);
+        let (shrink, shrink_order) = dominant(&total_shrink);
+        let total_glue = common::Glue {
+            stretch,
+            stretch_order,
+            shrink,
+            shrink_order,
+            ..Default::default()
+        };
         use std::cmp::Ordering::*;
         match excess.cmp(&common::Scaled::ZERO) {
             Less => {
